@@ -2,6 +2,7 @@ package main
 
 import (
 	"fmt"
+	"crypto/sha256"
 	"math/big"
 	"strings"
 
@@ -365,6 +366,9 @@ func genC18(e *emitter, r *rng, thorough bool) {
 		rec = func(ops []string, nregs int) {
 			if len(ops) > 0 {
 				e.emit(fmt.Sprintf("exh.len%d", len(ops)), xkLine(root, ops))
+				// the same history with no observation until the end (observing a key makes the real code compute
+				// and memoise its public key, so sharing that happens only on a FIRST computation is otherwise hidden)
+				e.emit(fmt.Sprintf("exh.quiet.len%d", len(ops)), "xkq"+xkLine(root, ops)[2:])
 			}
 			if len(ops) == maxLen {
 				return
@@ -427,6 +431,7 @@ func genC18(e *emitter, r *rng, thorough bool) {
 			}
 		}
 		e.emit("random30", xkLine(root, ops))
+		e.emit("random30.quiet", "xkq"+xkLine(root, ops)[2:])
 	}
 }
 
@@ -468,6 +473,45 @@ func genC07(e *emitter, r *rng, thorough bool) {
 		ent := r.bytes([]int{16, 20, 24, 28, 32}[r.intn(5)])
 		p := passes[r.intn(len(passes))]
 		e.emit("mn.rand", "bip39.mn "+hx(ent)+" "+hx(p))
+	}
+	// sentences whose BYTE LENGTH sits on the HMAC-SHA512 key boundary (block size 128: a longer key is hashed
+	// first) and around 64/256: (a) word sequences of exactly that length through MnemonicToSeed, (b) entropies
+	// whose own sentence has that length (found with the generator's own bit slicer) through Mnemonic
+	for _, target := range []int{63, 64, 65, 126, 127, 128, 129, 130, 191, 192, 193, 255, 256, 257} {
+		var ws []string
+		l := -1
+		for l < target-9 {
+			w := bip39.English[r.intn(2048)]
+			ws = append(ws, w)
+			l += 1 + len(w)
+		}
+		// finish with one word of exactly the missing length (3..8 letters are all available)
+		need := target - l - 1
+		for tries := 0; tries < 100000 && need >= 3 && need <= 8; tries++ {
+			w := bip39.English[r.intn(2048)]
+			if len(w) == need {
+				ws = append(ws, w)
+				l += 1 + need
+				break
+			}
+		}
+		if l == target {
+			sent := strings.Join(ws, " ")
+			e.emit(fmt.Sprintf("seed.bytelen%d", target), "bip39.seed "+hx([]byte(sent))+" "+hx(passes[r.intn(len(passes))]))
+			e.emit(fmt.Sprintf("seed.bytelen%d", target), "bip39.seed "+hx([]byte(sent))+" -")
+		}
+	}
+	for _, target := range []int{127, 128, 129} {
+		for _, el := range []int{24, 28, 32} {
+			found := 0
+			for tries := 0; tries < 60000 && found < 2; tries++ {
+				ent := r.bytes(el)
+				if ownSentenceLen(ent) == target {
+					found++
+					e.emit(fmt.Sprintf("mn.bytelen%d", target), "bip39.mn "+hx(ent)+" "+hx(passes[r.intn(len(passes))]))
+				}
+			}
+		}
 	}
 	// the same sentence with different passphrases in consecutive calls, through both entry points
 	for i := 0; i < 4; i++ {
@@ -537,4 +581,23 @@ func genC07(e *emitter, r *rng, thorough bool) {
 		b[r.intn(len(b))] = byte(0x80 + r.intn(128))
 		e.emit("seed.badutf8", "bip39.seed "+hx(b)+" -")
 	}
+}
+
+// ownSentenceLen is the byte length of the BIP39 sentence of ent, computed with the generator's own bit slicer
+// (entropy bits followed by len/32 checksum bits of SHA-256, 11 bits per word) and the library's word list.
+func ownSentenceLen(ent []byte) int {
+	h := sha256.Sum256(ent)
+	bits := new(big.Int).SetBytes(ent)
+	cs := uint(len(ent) / 4)
+	bits.Lsh(bits, cs)
+	bits.Or(bits, big.NewInt(int64(h[0]>>(8-cs))))
+	nw := (len(ent)*8 + int(cs)) / 11
+	total := nw - 1
+	mask := big.NewInt(2047)
+	for i := 0; i < nw; i++ {
+		idx := new(big.Int).And(bits, mask).Int64()
+		bits.Rsh(bits, 11)
+		total += len(bip39.English[idx])
+	}
+	return total
 }
